@@ -20,11 +20,11 @@ type verifFormat struct {
 	oid    uint32
 }
 
-func (f *verifFormat) IsBinaryFormat() bool                      { return f.binary }
-func (f *verifFormat) IsBinaryDataOperation() bool               { return f.binOp }
-func (f *verifFormat) GetDefaultDataValue() *string              { return f.def }
-func (f *verifFormat) GetDBDataTypeID() uint32                   { return f.oid }
-func (f *verifFormat) GetColumnName() string                     { return "col" }
+func (f *verifFormat) IsBinaryFormat() bool                     { return f.binary }
+func (f *verifFormat) IsBinaryDataOperation() bool              { return f.binOp }
+func (f *verifFormat) GetDefaultDataValue() *string             { return f.def }
+func (f *verifFormat) GetDBDataTypeID() uint32                  { return f.oid }
+func (f *verifFormat) GetColumnName() string                    { return "col" }
 func (f *verifFormat) GetResponseOnFail() common.ResponseOnFail { return f.onFail }
 
 func verifDup(b []byte) []byte { return append([]byte{}, b...) }
